@@ -115,8 +115,10 @@ func (a *IBCAdapter) ParsePacket(
 		return nil, err
 	}
 
+	// NOTE: sdk.NewCoin panics on an invalid denom or a negative amount. The coin is built
+	// here without validation and validated when the transfer attributes are created.
 	return &types.ParsedData{
-		Coin:    sdk.NewCoin(denom, amount),
+		Coin:    sdk.Coin{Denom: denom, Amount: amount},
 		Payload: *payload,
 	}, nil
 }
